@@ -10,7 +10,9 @@ from ..contracts import decoder as cd
 DEC_ASSUMPTIONS = [
     "acceptance languages of int(s, 10), real_cls(str), datetime.strptime per format family and re.fullmatch are "
     "uninterpreted predicates of the token text in these VCs (their languages: regex back end / bounded drivers)",
-    "for_try_except(exc, f, *iterables): assumed contract (first successful application, else the exception class)",
+    "for_try_except(exc, f, *iterables): assumed in T_dec as 'first successful application, else the exception class'; discharged in T_enc "
+    "(token-predicate-contracts) as 'the result on some tuple on which f returns, else the exception' - that it is the FIRST such tuple "
+    "matters only if two formats of one family accept one text differently (families pairwise disjoint: regex obligations)",
     "Token.is_space/is_WSC, OmniDecoder.decode_datetime (dateutil import inside the body): not under contract - bounded only; "
     "ODLDecoder.is_identifier is an assumed signature in T_dec and discharged as a functional contract in T_enc (token-predicate-contracts)",
     "grammar tables (comments, whitespace, reserved characters, keywords) are arbitrary finite collections of strings",
@@ -261,6 +263,8 @@ def token_sections(ctx, pid):
     verify_contracts(s, s_contracts, EncTheory, ["pvl.token"], jobs=ctx.jobs)
     # ODLDecoder.is_identifier (a character loop): assumed in T_dec, discharged here with the search-loop rule over the characters
     verify_contracts(s, ce.identifier_contracts(), EncTheory, ["pvl.decoder"], jobs=1)
+    # pvl.decoder.for_try_except (assumed contract in T_dec): search loop over the zipped tuples
+    verify_contracts(s, ce.for_try_except_contracts(), EncTheory, ["pvl.decoder"], jobs=1)
     s.assumptions += [ENC_ASSUMPTIONS[0], ENC_ASSUMPTIONS[3],
                       "decoder.decode_X(token) returns or raises ValueError as decided by one uninterpreted predicate per method "
                       "(which exceptions can leave a decoder method: T_dec); Token.is_space / is_WSC / __index__ / __float__ are not under contract"]
